@@ -370,7 +370,8 @@ func C20(tier Tier) int {
 	}
 	// 3. address classification
 	addrs := NewEnum()
-	ids := [][]byte{{}, {0xff}, {0xff, 0xff}, {0}, {0xfe}, {0xff, 0xfe}}
+	ids := [][]byte{{}, {0xff}, {0xff, 0xff}, {0}, {0xfe}, {0xff, 0xfe}, bytes.Repeat([]byte{0xff}, 31), bytes.Repeat([]byte{0xff}, 32), bytes.Repeat([]byte{0xff}, 33), bytes.Repeat([]byte{0xff}, 40),
+		append(bytes.Repeat([]byte{0xff}, 39), 0xfe)}
 	var cases [][]byte
 	for l := 0; l <= 40; l++ {
 		for _, fill := range []byte{0, 0xff, 1} {
